@@ -431,3 +431,131 @@ Proof.
   intros Hin Hs Hraw. pose proof table_scales_ok as H. rewrite forallb_forall in H. specialize (H b Hin).
   rewrite Hs, Bool.orb_false_r in H. apply scale_okb_sound in H. exact (scaled_field_within_one raw b v q z Hraw H).
 Qed.
+
+(* ---- the other direction (C15): build, then parse ---- *)
+
+(* bound on W = V / S from the truncated quotient fitting 32 bits *)
+Lemma W_bound W q e1 h1 :
+  q = W * (1 + e1) + h1 -> Rabs q <= 4294967297 -> Rabs e1 <= u53 -> Rabs h1 <= tiny -> Rabs W <= 8589934592.
+Proof.
+  intros Eq Hq He Hh.
+  assert (Hu : 0 < u53 <= / 1000000000000000) by (unfold u53; lra).
+  assert (Ht : Rabs h1 <= 1).
+  { eapply Rle_trans; [exact Hh|]. unfold tiny. apply Rle_trans with (1 / 1); [|lra].
+    unfold Rdiv. apply Rmult_le_compat_l; [lra|]. apply Rinv_le_contravar; [lra|].
+    replace 1 with (10 ^ 0) at 1 by reflexivity. apply Rle_pow; [lra|]. apply Nat.le_0_l. }
+  assert (H1 : Rabs (W * (1 + e1)) <= 4294967298).
+  { replace (W * (1 + e1)) with (q - h1) by (rewrite Eq; ring).
+    eapply Rle_trans; [apply Rabs_triang|]. rewrite Rabs_Ropp. lra. }
+  rewrite Rabs_mult in H1.
+  assert (H2 : 1 - u53 <= Rabs (1 + e1)).
+  { assert (Ha : - u53 <= e1 <= u53) by (apply Rabs_le_inv; exact He). rewrite Rabs_pos_eq; lra. }
+  assert (H3 : 0 <= Rabs W) by apply Rabs_pos.
+  assert (H4 : Rabs W * (1 - u53) <= 4294967298).
+  { eapply Rle_trans; [|exact H1]. apply Rmult_le_compat_l; assumption. }
+  nra.
+Qed.
+
+Lemma core2 S W e1 e2 e3 h1 h2 h3 th dl :
+  0 < S -> Rabs W <= 8589934592 ->
+  Rabs e1 <= u53 -> Rabs e2 <= u53 -> Rabs e3 <= u53 ->
+  Rabs h1 <= tiny -> Rabs h2 <= tiny -> Rabs h3 <= tiny ->
+  Rabs th <= 5 / 10 ^ 13 -> Rabs dl <= 1 ->
+  Rabs (S * W * ((1 + e1) * (1 + e2) * (1 + e3) - 1) + (h1 + dl) * S * (1 + e2) * (1 + e3) + (h2 + th) * (1 + e3) + h3)
+  <= S * (1 + / 1000) + / ten12.
+Proof.
+  intros HS HW H1 H2 H3 G1 G2 G3 Hth Hdl.
+  assert (Hu : 0 < u53 <= / 1000000000000000) by (unfold u53; lra).
+  assert (Ht : 0 < tiny <= / 1000000000000000000000000000000).
+  { unfold tiny. split.
+    - apply Rdiv_lt_0_compat; [lra|]. apply pow_lt. lra.
+    - replace (1 / 10 ^ 300) with (/ 10 ^ 300) by (unfold Rdiv; ring).
+      apply Rinv_le_contravar; [lra|].
+      replace 1000000000000000000000000000000 with (10 ^ 30) by lra.
+      apply Rle_pow; [lra|]. repeat constructor. }
+  assert (HSa : Rabs S <= S) by (rewrite Rabs_pos_eq; lra).
+  set (p := (1 + e1) * (1 + e2) - 1).
+  assert (Hp : Rabs p <= 3 * u53).
+  { replace p with (e1 + e2 + e1 * e2) by (unfold p; ring).
+    eapply Rle_trans; [apply abs_add; [apply abs_add; [exact H1|exact H2]|apply abs_mul; [exact H1|exact H2]]|]. nra. }
+  set (A := (1 + e1) * (1 + e2) * (1 + e3) - 1).
+  assert (HA : Rabs A <= 5 * u53).
+  { replace A with (p + e3 + p * e3) by (unfold A, p; ring).
+    eapply Rle_trans; [apply abs_add; [apply abs_add; [exact Hp|exact H3]|apply abs_mul; [exact Hp|exact H3]]|]. nra. }
+  assert (HX : Rabs (S * W * A) <= S * 8589934592 * (5 * u53)) by (apply abs_mul; [apply abs_mul|]; assumption).
+  assert (HB : Rabs ((h1 + dl) * S * (1 + e2) * (1 + e3)) <= (tiny + 1) * S * (1 + u53) * (1 + u53)).
+  { apply abs_mul; [apply abs_mul; [apply abs_mul; [apply abs_add; assumption|exact HSa]|apply abs_1p; assumption]|apply abs_1p; assumption]. }
+  assert (HC : Rabs ((h2 + th) * (1 + e3)) <= (tiny + 5 / 10 ^ 13) * (1 + u53)).
+  { apply abs_mul; [apply abs_add; assumption|apply abs_1p; assumption]. }
+  eapply Rle_trans; [apply abs_add; [apply abs_add; [apply abs_add; [exact HX|exact HB]|exact HC]|exact G3]|].
+  assert (E : 5 / 10 ^ 13 = / 2000000000000) by lra. rewrite E.
+  unfold ten12. change (10 ^ 12)%Z with 1000000000000%Z.
+  unfold u53 in *. nra.
+Qed.
+
+Lemma trunc_err (w : R) : Rabs (IZR (Ztrunc w) - w) <= 1.
+Proof.
+  unfold Ztrunc. destruct (Rlt_bool w 0).
+  - pose proof (Zceil_ub w). assert (IZR (Zceil w) - 1 < w).
+    { unfold Zceil. rewrite opp_IZR. pose proof (Zfloor_ub (- w)). lra. }
+    apply Rabs_le. lra.
+  - pose proof (Zfloor_lb w). pose proof (Zfloor_ub w). apply Rabs_le. lra.
+Qed.
+
+(* build then parse: a value v supplied for a scaled field of up to 32 bits comes back within one unit of
+   resolution (the scale), up to one part in a thousand of that unit and the 12-decimal rounding grain *)
+Theorem build_parse_within_unit vf s q z y v' :
+  fin vf -> fin s -> 0 < R_of s ->
+  fdiv vf s = Ok q -> py_int_of_float q = Ok z -> (Z.abs z <= 2 ^ 32)%Z ->
+  fmul (f_of_Z z) s = y -> py_round_nd 12 y = Ok v' -> is_finite_SF v' = true ->
+  Rabs (R_of v' - R_of vf) <= R_of s * (1 + / 1000) + / ten12.
+Proof.
+  intros Fv Fs HS0 Eq Ez Hz Ey Ev Ffin.
+  assert (Ht : 0 < ten12) by (unfold ten12; apply IZR_lt; reflexivity).
+  destruct (fdiv_fin vf s q Fv Fs Eq) as [[Fq Rq]|[sq Hinf]].
+  2:{ subst q. cbn in Ez. discriminate. }
+  rewrite (int_of_float_fin q Fq) in Ez. injection Ez as Ez.
+  destruct (f_of_Z_fin z) as [Fx Rx]; [lia|].
+  pose proof (fmul_fin (f_of_Z z) s Fx Fs) as Hy. cbv zeta in Hy. rewrite Ey in Hy.
+  destruct Hy as [[Fy Ry]|[sy Hinf]].
+  2:{ rewrite Hinf in Ev. unfold py_round_nd in Ev. injection Ev as <-. discriminate. }
+  destruct (round12_fin y v' Fy Ev) as (Fv' & d & Hd & Rv').
+  rewrite Rv'. rewrite Ry, Rx in Hd.
+  set (S := R_of s) in *. set (V := R_of vf) in *.
+  destruct (RN_err (V / S)) as (e1 & h1 & He1 & Hh1 & E1). rewrite E1 in Rq.
+  destruct (RN_err (IZR z * S)) as (e2 & h2 & He2 & Hh2 & E2). rewrite E2 in Hd.
+  destruct (RN_err d) as (e3 & h3 & He3 & Hh3 & E3). rewrite E3.
+  set (th := d - (IZR z * S * (1 + e2) + h2)) in *.
+  assert (Ed : d = IZR z * S * (1 + e2) + h2 + th) by (unfold th; ring). clearbody th.
+  set (W := V / S) in *.
+  set (dl := IZR z - R_of q).
+  assert (Hdl : Rabs dl <= 1) by (unfold dl; rewrite <- Ez; apply trunc_err).
+  assert (HW : Rabs W <= 8589934592).
+  { apply (W_bound W (R_of q) e1 h1 Rq); [|assumption|assumption].
+    replace (R_of q) with (IZR z - dl) by (unfold dl; ring).
+    eapply Rle_trans; [apply Rabs_triang|]. rewrite Rabs_Ropp.
+    assert (Rabs (IZR z) <= 4294967296) by (rewrite <- abs_IZR; change 4294967296 with (IZR (2 ^ 32)); apply IZR_le; exact Hz). lra. }
+  assert (EV : V = W * S) by (unfold W; field; lra).
+  assert (Ezr : IZR z = W * (1 + e1) + h1 + dl) by (unfold dl; rewrite Rq; ring).
+  replace (d * (1 + e3) + h3 - V)
+    with (S * W * ((1 + e1) * (1 + e2) * (1 + e3) - 1) + (h1 + dl) * S * (1 + e2) * (1 + e3) + (h2 + th) * (1 + e3) + h3)
+    by (rewrite Ed, Ezr, EV; ring).
+  apply core2; try assumption.
+  eapply Rle_trans; [exact Hd|]. unfold ten12. change (10 ^ 12)%Z with 1000000000000%Z. lra.
+Qed.
+
+
+Theorem scaled_build_parse_within_unit vf b q z v' :
+  fin vf -> fin (b64_of_bits b) -> 0 < R_of (b64_of_bits b) ->
+  py_div_scale (PFloat vf) (SFloat b) = Ok q -> py_int_of_float q = Ok z -> (Z.abs z <= 2 ^ 32)%Z ->
+  (do m <- py_mul_scale (PInt z) (SFloat b); py_round12 12 m) = Ok (PFloat v') -> is_finite_SF v' = true ->
+  Rabs (R_of v' - R_of vf) <= R_of (b64_of_bits b) * (1 + / 1000) + / ten12.
+Proof.
+  intros Fv Fs HS Hq Hz Hr Hv Hfin. cbn [py_div_scale] in Hq. cbn [py_mul_scale] in Hv. unfold py_float_of_int in Hv.
+  destruct (f_of_Z_fin z) as [[Fx _] _]; [lia|].
+  destruct (is_inf (f_of_Z z)) eqn:Ei; [destruct (f_of_Z z); discriminate|].
+  cbn [bind py_round12] in Hv.
+  destruct (py_round_nd 12 (fmul (f_of_Z z) (b64_of_bits b))) as [vv|] eqn:Ev; [|discriminate].
+  cbn [bind] in Hv. injection Hv as <-.
+  exact (build_parse_within_unit vf (b64_of_bits b) q z _ vv Fv Fs HS Hq Hz Hr eq_refl Ev Hfin).
+Qed.
